@@ -80,12 +80,17 @@ Definition reset_acc (st : cstate) : cstate :=
   let wi := wio_ st in
   mkC (framed st) (rst st) (mkW (wbuf wi) (wq wi) (fq wi) []) (rq st) (sq st) (next_tid st) (unit_id st) (shutdowns st).
 
-Definition run_live_op (p : proto) (m : mode) (tmo : option N) (st : cstate) (op : list (list N)) : list N * cstate :=
+Definition show_tmo (t : option N) : list N := match t with Some n => show_dec n | None => s2l "-" end.
+
+(* one operation on the blocking context [c]; `timeout <ms|->` is set_timeout / reset_timeout, answered with what
+   timeout() then returns *)
+Definition run_live_op (p : proto) (m : mode) (c : sctx) (op : list (list N)) : list N * sctx :=
+  let tmo := s_timeout c in
+  let st := s_client c in
   match op with
   | [h; rq_; pe] =>
       match parse_req rq_, parse_peer pe with
       | Some req, Some pr =>
-          let timed := match tmo with Some _ => true | None => false end in
           let '(now, later) :=
             match pr with
             | PReply b => ([RData b], [])
@@ -96,30 +101,33 @@ Definition run_live_op (p : proto) (m : mode) (tmo : option N) (st : cstate) (op
                             | None => ([RData b], [])
                             end
             end in
-          let st0 := push_rq (reset_acc st) now in
+          let c0 := mkS (push_rq (reset_acc st) now) tmo in
           if is h "call" then
-            let '(res, st1) := sync_call p m timed st0 req in
-            (show_call_result res ++ s2l " rx=" ++ show_hex (accepted (wio_ st1)), push_rq st1 later)
+            let '(res, c1) := sctx_call p m c0 req in
+            (show_call_result res ++ s2l " rx=" ++ show_hex (accepted (wio_ (s_client c1))), mkS (push_rq (s_client c1) later) tmo)
           else if is h "typed" then
-            let '(res, st1) := sync_typed p m timed st0 req in
-            (show_typed_result res ++ s2l " rx=" ++ show_hex (accepted (wio_ st1)), push_rq st1 later)
-          else (err "liveop", st)
-      | _, _ => (err "liveargs", st)
+            let '(res, c1) := sctx_typed p m c0 req in
+            (show_typed_result res ++ s2l " rx=" ++ show_hex (accepted (wio_ (s_client c1))), mkS (push_rq (s_client c1) later) tmo)
+          else (err "liveop", c)
+      | _, _ => (err "liveargs", c)
       end
   | [h; a] =>
       if is h "slave" then
         match parse_dec a with
-        | Some n => (s2l "ok", sync_set_slave st n)
-        | None => (err "slave", st)
+        | Some n => (s2l "ok", sctx_set_slave c n)
+        | None => (err "slave", c)
         end
-      else (err "liveop2", st)
-  | _ => (err "liveoplen", st)
+      else if is h "timeout" then
+        let c' := if is_dash a then sync_reset_timeout c else sync_set_timeout c (parse_dec a) in
+        (s2l "ok t=" ++ show_tmo (s_timeout c'), c')
+      else (err "liveop2", c)
+  | _ => (err "liveoplen", c)
   end.
 
-Fixpoint run_live_ops (p : proto) (m : mode) (tmo : option N) (st : cstate) (ops : list (list (list N))) : list (list N) :=
+Fixpoint run_live_ops (p : proto) (m : mode) (c : sctx) (ops : list (list (list N))) : list (list N) :=
   match ops with
   | [] => []
-  | op :: r => let '(o, st') := run_live_op p m tmo st op in o :: run_live_ops p m tmo st' r
+  | op :: r => let '(o, c') := run_live_op p m c op in o :: run_live_ops p m c' r
   end.
 
 (* ---- E2E lines: <proto> <slave> ops; op = call|typed <request> <service reply>
@@ -224,7 +232,7 @@ Definition run_line (m : mode) (line : list N) : list N :=
         | Some p, tm :: sl :: ops =>
             let tmo := if is_dash tm then None else parse_dec tm in
             let slave := if is_dash sl then None else parse_dec sl in
-            join (s2l " ; ") (run_live_ops p m tmo (sync_connect p slave) (split_ops ops [])) ++ s2l " ; timing_ok=1"
+            join (s2l " ; ") (run_live_ops p m (sync_connect_ctx p slave tmo) (split_ops ops [])) ++ s2l " ; timing_ok=1"
         | _, _ => err "live"
         end
       else if is h "ACCEPT" then
@@ -237,6 +245,10 @@ Definition run_line (m : mode) (line : list N) : list N :=
                          | [115] => Some (AConn (SetupService [RData good; REof]))   (* s *)
                          | [98] => Some (AConn (SetupService [RData bad]))           (* b *)
                          | [114] => Some (AConn SetupReject)                         (* r *)
+                         | [104] => Some (AConn SetupHang)                           (* h *)
+                         | [107] => Some (AConn (SetupService [RData good; REof]))   (* k: a peer that reset the connection while
+                                                                                        it was still in the listen backlog: accepted and
+                                                                                        set up like any other *)
                          | 101 :: 58 :: k => option_map (fun k => AConn (SetupErr k)) (parse_kind k)
                          | [97] => Some AAbort                                       (* a *)
                          | _ => None end) evs with
